@@ -9,12 +9,12 @@ package c18
 
 import (
 	"bytes"
-	"sort"
-	"sync"
-	"sync/atomic"
 	"context"
 	"errors"
 	"fmt"
+	"sort"
+	"sync"
+	"sync/atomic"
 
 	"github.com/NethermindEth/juno/blockchain/networks"
 	"github.com/NethermindEth/juno/db"
